@@ -133,7 +133,14 @@ impl<'de> serde::Deserializer<'de> for ValueDeserializer {
         V: serde::de::Visitor<'de>,
     {
         if serde_spanned::__unstable::is_spanned(name, fields) {
-            if let Some(span) = self.input.span() {
+            let span = self.input.span().or_else(|| match &self.input {
+                crate::Item::Table(t) => super::span_of_children(&t.items),
+                crate::Item::Value(crate::Value::InlineTable(t)) => {
+                    super::span_of_children(&t.items)
+                }
+                _ => None,
+            });
+            if let Some(span) = span {
                 return visitor.visit_map(super::SpannedDeserializer::new(self, span));
             }
         }
